@@ -148,7 +148,7 @@ func zinterstoreKeyFunc(cmd []string) (internal.KeyExtractionFuncResult, error) 
 		}, nil
 	}
 
-	if endIdx >= 3 {
+	if endIdx >= 2 {
 		return internal.KeyExtractionFuncResult{
 			Channels:  make([]string, 0),
 			ReadKeys:  cmd[2 : endIdx+1],
